@@ -5,7 +5,7 @@
 # seedtest.sh, which applies the change to /repo itself.
 WT=/tmp/wt-seed-$$
 SV=/tmp/seed-verif-$$
-mkdir -p $SV; cp /verif/known_findings.json $SV/; cp -r /verif/contracts_mirror $SV/ 2>/dev/null
+mkdir -p $SV; cp /verif/known_findings.json $SV/; cp -r /verif/contracts_mirror /verif/bounded $SV/ 2>/dev/null
 git -C /repo worktree add -q --detach $WT HEAD || exit 2
 export GOFLAGS=-mod=mod GOPROXY=off GOSUMDB=off GOTOOLCHAIN=local
 ids="$@"; [ -z "$ids" ] && ids=$(ls -d /verif/seeded/C*-* | xargs -n1 basename)
